@@ -8,18 +8,94 @@
    A model value WILD (-2) stands for a part the model leaves open (zstd) and matches anything;
    `OkOrErr` is the verdict of a parser whose acceptance depends on HashMap iteration order
    (HuffmanTree::deserialize on a table that is not prefix free). *)
+From Coq Require Import Uint63.
 From ZV.Common Require Import Base Run.
-From ZV.C15 Require Import Model ModelBlob ModelIo2.
+From ZV.C15 Require Import Model ModelBlob ModelIo2 ModelHuff.
 Open Scope N_scope.
 
 Inductive verdict : Type :=
 | Exact (r : res (list Z))
-| OkOrErr (v : list Z) (alloc : N).
+| OkOrErr (v : list Z) (alloc : N)
+(* a value or an error, both fine, the value is not predicted (decoding with a tree whose shape depends
+   on the HashMap order) *)
+| AnyValue.
+
+(* contextual Huffman encoders parsed once per case file: (key, encoder) *)
+Definition cenv_t : Type := list (N * HC.cenc).
+(* the serialized encoders arrive packed, 7 bytes per primitive integer (little endian), with their
+   length: coqc reads primitive integer literals an order of magnitude faster than N literals *)
+Fixpoint le_bytes (k : nat) (w : N) : list N :=
+  match k with O => [] | S k' => w mod 256 :: le_bytes k' (w / 256) end.
+Definition int_bytes (i : int) : list N := le_bytes 7 (Z.to_N (Uint63.to_Z i)).
+Definition unpack_words (len : N) (ws : list int) : list N :=
+  firstn (N.to_nat len) (flat_map int_bytes ws).
+Fixpoint mk_cenv (l : list (N * N * list int)) : cenv_t :=
+  match l with
+  | [] => []
+  | (k, len, ws) :: rest =>
+      match cenc_of_aux (unpack_words len ws) with Some e => (k, e) :: mk_cenv rest | None => mk_cenv rest end
+  end.
+Definition cenv_get (env : cenv_t) (aux : list N) : option HC.cenc :=
+  match aux with
+  | k :: _ => match find (fun p => fst p =? k) env with Some p => Some (snd p) | None => None end
+  | [] => None
+  end.
+
+Definition zlist (l : list N) : list Z := map Z.of_N l.
+(* deserialize-then-use cells: exact when the table is order-free *)
+Definition ht_then (data : list N) (free_k : H.table -> N -> res (list Z)) (other : list Z -> N -> verdict) : verdict :=
+  match ht_deser true data with
+  | Ok (tb, ml) a => if order_free tb then Exact ('(tb, ml) <- ht_deser true data ;; free_k tb ml) else other [Z.of_N ml] a
+  | Err a => Exact (Err a)
+  | Panic => Exact Panic
+  end.
+Definition neg1_len (r : res (list N)) : Z := match r with Ok v _ => Z.of_N (nlen v) | _ => (-1)%Z end.
+Definition xn_streams (pid : N) : nat :=
+  if pid =? 108 then 1%nat else if pid =? 109 then 2%nat else if pid =? 110 then 4%nat else 8%nat.
 
 Definition xcase : Type := N * N * list N * list N * (N * N) * N * list Z.
 
-Definition run_model2 (pid arg : N) (aux data : list N) : option verdict :=
+Definition run_model2 (env : cenv_t) (pid arg : N) (aux data : list N) : option verdict :=
   match pid with
+  (* HuffmanTree::deserialize: [max_code_length] *)
+  | 100 => Some (ht_then data (fun tb ml => _ <- ht_build tb ;; ret [Z.of_N ml]) OkOrErr)
+  (* HuffmanDecoder::decode with the trained tree (aux = tree.serialize()) *)
+  | 101 => match tree_of_aux aux with
+           | Some root => Some (Exact (obsR (huff_decode_o true root data arg)))
+           | None => None
+           end
+  (* HuffmanTree::deserialize, then decode PAYLOAD *)
+  | 102 => Some (ht_then data (fun tb _ => root <- ht_build tb ;; obsR (huff_decode_o true root PAYLOAD arg))
+                         (fun _ _ => AnyValue))
+  (* ContextualHuffmanEncoder::deserialize: [tree_count] *)
+  | 103 => Some (match ctx_deser true data with
+                 | Ok e a => let v := [Z.of_N (nlen (HC.c_trees e))] in if ctx_free e then Exact (Ok v a) else OkOrErr v a
+                 | Err a => Exact (Err a)
+                 | Panic => Exact Panic
+                 end)
+  (* deserialize, decode_x2(PAYLOAD, min(arg, 64)), ContextualHuffmanDecoder::decode(PAYLOAD, arg) *)
+  | 104 => Some (match ctx_deser true data with
+                 | Ok e a =>
+                     if ctx_free e then
+                       Exact (e <- ctx_deser true data ;;
+                              let x := neg1_len (xn_decode_o e 2 PAYLOAD (N.min arg 64)) in
+                              v <- ctx_decode_o e PAYLOAD arg ;;
+                              ret [Z.of_N (nlen v); x])
+                     else AnyValue
+                 | Err a => Exact (Err a)
+                 | Panic => Exact Panic
+                 end)
+  (* ContextualHuffmanDecoder::decode, orders 0 / 1 / 2, encoder from the environment *)
+  | 105 => match cenv_get env aux with
+           | Some e => Some (Exact (obsR (ctx_decode_o e data arg)))
+           | None => None
+           end
+  (* decode_x1 / x2 / x4 / x8 *)
+  | 108 | 109 | 110 | 111 =>
+           match cenv_get env aux with
+           | Some e => Some (Exact (obsR (xn_decode_o e (xn_streams pid) data arg)))
+           | None => None
+           end
   (* 50: read_length_prefixed_bytes with the growth of the buffer in the accounting (ModelIo2) *)
   | 50 => Some (Exact (sdi_lp_bytes_g false data))
   | 90 => Some (Exact (suv_cell data))
@@ -27,7 +103,7 @@ Definition run_model2 (pid arg : N) (aux data : list N) : option verdict :=
   | _ => None
   end.
 
-Definition model2_ids : list N := [50; 90; 91].
+Definition model2_ids : list N := [50; 90; 91; 100; 101; 102; 103; 104; 105; 108; 109; 110; 111].
 
 Fixpoint match_vals (m v : list Z) : bool :=
   match m, v with
@@ -44,6 +120,7 @@ Definition check_verdict (vd : verdict) (code : N) (vals : list Z) : bool :=
   | Exact (Err a) => if AS_LIMIT <=? a then code =? 2 else code =? 1
   | Exact (Ok v a) => if AS_LIMIT <=? a then code =? 2 else (code =? 0) && vals_ok v vals
   | OkOrErr v a => if AS_LIMIT <=? a then code =? 2 else (code =? 1) || ((code =? 0) && vals_ok v vals)
+  | AnyValue => (code =? 0) || (code =? 1)
   end.
 
 Definition xdata (bytes : list N) (pad : N * N) : list N :=
@@ -52,10 +129,11 @@ Definition xdata (bytes : list N) (pad : N * N) : list N :=
   | n => bytes ++ repeat (snd pad) (N.to_nat n)
   end.
 
-Definition xok (c : xcase) : bool :=
+Definition xok_env (env : cenv_t) (c : xcase) : bool :=
   let '(pid, arg, aux, bytes, pad, code, vals) := c in
   let data := xdata bytes pad in
-  match run_model2 pid arg aux data with
+  match run_model2 env pid arg aux data with
   | Some vd => check_verdict vd code vals
   | None => check_case pid arg data code vals
   end.
+Definition xok : xcase -> bool := xok_env [].
